@@ -243,4 +243,28 @@ def el_from(cfg, v):
 
 
 # includes several representatives of 0 (division must give 0 for each: inv0 of the residue)
-INT_OPERANDS_TINY = lambda p: [0, 1, -1, p, p + 1, -p - 1, 2 * p + 3, 2 ** 400, -p, 2 * p, p * p, -3 * p, 5 * p ** 3]  # noqa: E731
+class IntSub(int):
+    """a proper subclass of int (as enum.IntEnum members and many wrapper types are)"""
+    __slots__ = ()
+
+
+# 10**4400 has more decimal digits than the interpreter's int -> str conversion limit (4300)
+INT_OPERANDS_TINY = lambda p: [0, 1, -1, p, p + 1, -p - 1, 2 * p + 3, 2 ** 400, -p, 2 * p, p * p, -3 * p, 5 * p ** 3,  # noqa: E731
+                               IntSub(p + 2), IntSub(3), 10 ** 4400 + 3, -(10 ** 4400) - 1]
+
+
+def jint(v):
+    """JSON form of an int operand: decimal conversion of > 4300-digit ints is refused by the
+    interpreter, so large ones are written in hex"""
+    if isinstance(v, int) and not isinstance(v, bool) and abs(v) >= 2 ** 4000:
+        return {"hex": hex(v)}
+    return int(v) if isinstance(v, int) and not isinstance(v, bool) else v
+
+
+def unjint(v):
+    return int(v["hex"], 16) if isinstance(v, dict) and "hex" in v else v
+
+
+def int_forms(y):
+    """replay helper: the operand as a plain int and as an int-subclass instance"""
+    return [y, IntSub(y)] if type(y) is int else [y]
